@@ -27,12 +27,58 @@ func init() {
 				"'above the limit' exactly when that stamp is set and not older than the interval.",
 			NotCovered: "that the ring buffer of golibs behaves as a ring (trusted), so that R7's structure (limit+1 slots, push before read, comparison with " +
 				"the interval) yields an exact sliding window; the expiry timing of the backoff tables (temporal facts outside static reach); the allowlist's own matching.",
-			Rules: map[string]string{"C09-R19": "the rate-limiting middleware takes the peer address through netutil.NetAddrToAddrPort, which unmaps IPv4-mapped IPv6 addresses", "C09-R18": "serveDNSMsgInternal writes nothing when the handler returns nil without a response, so a query dropped by the limiter stays unanswered (tables shared with C01-R2 and C01-R3)", "C09-R17": "every path of the rate-limiting middleware that serves a plain-DNS query has asked the global limiter (the only implementation of refuse_any and of the allowlist) first", "C09-R16": "subnets converted between the backend, the internal and the file-cache representations keep their prefix length as it is (a /0 stays a /0)", "C09-R15": "NewBackoff: request counters expire after Period, hit counters after Duration", "C09-R14": "configuration objects handed to constructors that keep them are built per server (hand-off rule shared with C15-R6)", "C09-RC": "class rules (error chains, shadowed results, character classes, crossed arguments, pool constructors, array pools, loop completeness, loop-carried buffers, replacing setters, complete clones, Grow arithmetic, pooled-buffer escape, sorted searches, fresh decode targets, per-iteration objects, whole-message copies, codec guards) over the packages this property rests on", "C09-R13": "backendpb.RateLimitSettings.toInternal: the profile's own limiter exactly when present and enabled (an empty subnet list is not a reason to fall back to the global one)", "C09-R12": "DynamicAllowlist.IsAllowed: exempt exactly when some persistent or dynamic subnet contains the address; the dynamic part is read under the lock; constructor field map", "C09-R11": "list setters (DynamicAllowlist.Update, …) replace the list: no append onto the previous contents of the same field", "C09-R1": "middleware gate tables", "C09-R2": "limiter check order, family selection, keying", "C09-R3": "profile limiter table",
+			Rules: map[string]string{"C09-R21": "every key of the ratelimit section of the documented sample configuration config.dist.yaml (refuseany, counts, intervals, key lengths, allowlist, ...) is named by a yaml tag of the configuration structure: a documented setting that the decoder ignores leaves the limiter without it", "C09-R20": "backendpb.RateLimiter.Refresh replaces the allowlist with what the backend sent on every successful refresh, an empty list included (a subnet removed from the allowlist stops being exempt); a failed call leaves it alone", "C09-R19": "the rate-limiting middleware takes the peer address through netutil.NetAddrToAddrPort, which unmaps IPv4-mapped IPv6 addresses", "C09-R18": "serveDNSMsgInternal writes nothing when the handler returns nil without a response, so a query dropped by the limiter stays unanswered (tables shared with C01-R2 and C01-R3)", "C09-R17": "every path of the rate-limiting middleware that serves a plain-DNS query has asked the global limiter (the only implementation of refuse_any and of the allowlist) first", "C09-R16": "subnets converted between the backend, the internal and the file-cache representations keep their prefix length as it is (a /0 stays a /0)", "C09-R15": "NewBackoff: request counters expire after Period, hit counters after Duration", "C09-R14": "configuration objects handed to constructors that keep them are built per server (hand-off rule shared with C15-R6)", "C09-RC": "class rules (error chains, shadowed results, character classes, crossed arguments, pool constructors, array pools, loop completeness, loop-carried buffers, replacing setters, complete clones, Grow arithmetic, pooled-buffer escape, sorted searches, fresh decode targets, per-iteration objects, whole-message copies, codec guards) over the packages this property rests on", "C09-R13": "backendpb.RateLimitSettings.toInternal: the profile's own limiter exactly when present and enabled (an empty subnet list is not a reason to fall back to the global one)", "C09-R12": "DynamicAllowlist.IsAllowed: exempt exactly when some persistent or dynamic subnet contains the address; the dynamic part is read under the lock; constructor field map", "C09-R11": "list setters (DynamicAllowlist.Update, …) replace the list: no append onto the previous contents of the same field", "C09-R1": "middleware gate tables", "C09-R2": "limiter check order, family selection, keying", "C09-R3": "profile limiter table",
 				"C09-R4": "window counter under its lock", "C09-R9": "builder wiring: the configured allowlist is the persistent part of the dynamic allowlist", "C09-R8": "the dynamic allowlist is replaced only after a successful load (a failed refresh keeps the previous allowlist)", "C09-R7": "window counter structure: the ring holds limit+1 time stamps; every event (also one that is dropped) is pushed before the oldest one is read; the event is above the limit iff the oldest kept stamp is set and within the interval", "C09-R5": "every estimated response is counted", "C09-R6": "configuration-to-limiter field map (each family's count, interval and key length under its own name)"},
 		}})
 }
 
 func runC09(c *an.Ctx) {
+	// ---- R21: the documented rate-limit settings are read by the configuration structure
+	if n := sharedDistConfigKeys(c, "C09-R21", "ratelimit."); n < 8 {
+		c.Und("C09-R21", "keys of config.dist.yaml", token.NoPos, "only %d key paths under ratelimit examined", n)
+	}
+	// ---- R20: every successful refresh replaces the allowlist
+	c.Floor("C09-R20", 1)
+	decide(c, "C09-R20", "backendpb.(*RateLimiter).Refresh", an.DecideCfg{
+		Dom: an.Domain{"rpcerr": an.Bools},
+		Inline: func(f *ssa.Function) bool {
+			return strings.HasPrefix(an.FnKey(f), "backendpb.(*RateLimiter).Refresh$")
+		},
+		OnCall: func(it *an.Interp, name string, args []an.AV) (an.AV, bool) {
+			switch {
+			case name == "p0.client.GetRateLimitSettings":
+				if it.Feature("rpcerr").IsTrue() {
+					return an.AV{Kind: an.KTuple, Tup: []an.AV{an.Nil(), an.NonNil("rpcErr")}}, true
+				}
+				return an.AV{Kind: an.KTuple, Tup: []an.AV{an.NonNil("resp"), an.Nil()}}, true
+			case name == "backendpb.cidrRangeToInternal":
+				return an.Sym("prefixes(" + args[3].String() + ")"), true
+			case name == "fmt.Errorf", strings.HasSuffix(name, "fixGRPCError"):
+				return an.NonNil("wrapped"), true
+			case name == "backendpb.ctxWithAuthentication":
+				return an.NonNil("authctx"), true
+			}
+			return an.AV{}, false
+		},
+		Expect: func(f an.Features, o an.AOutcome) string {
+			var upd []string
+			for _, e := range o.Effects {
+				if e.Kind == "call" && strings.HasSuffix(e.Name, "DynamicAllowlist).Update") && len(e.Args) == 2 && e.Args[0] == "p0.allowlist" {
+					upd = append(upd, e.Args[1])
+				}
+			}
+			if f.B("rpcerr") {
+				if len(upd) == 0 && len(o.Ret) == 1 && o.Ret[0].Kind != an.KNil {
+					return ""
+				}
+				return "an error and the allowlist left alone when the backend call fails"
+			}
+			if len(upd) == 1 && strings.HasPrefix(upd[0], "prefixes(") && strings.Contains(upd[0], "AllowedSubnets") {
+				return ""
+			}
+			return "the allowlist replaced once with the converted subnets of the response, whatever their number; got " + fmt.Sprint(upd)
+		},
+	})
 	classSweep(c, "C09")
 	// ---- R19: the client's address is unmapped before it selects a bucket, an allowlist entry or a profile subnet
 	c.Floor("C09-R19", 1)
